@@ -121,6 +121,7 @@ def run_case(cls, idx, rng, obs):
     conds = [l[1] for l in layers]
     nops = rng.randint(6, 24)
     ops = []
+    held = [None, None]          # a report of stored() kept by the caller, and what it said when taken
     saw_violated = saw_satisfied = advanced_before_call = False
     advanced = False
     for _ in range(nops):
@@ -200,6 +201,22 @@ def run_case(cls, idx, rng, obs):
         obs.check(len(got_s) == len(want_s) and all(close(float(a), float(b)) for a, b in zip(got_s, want_s)),
                   'state:stored() holds the stored condition values', layers=layers, ops=ops[-6:],
                   observed=got_s, expected=want_s)
+        # what stored() hands out is a report, not the penalty's own history: later operations leave an earlier report alone, and a caller
+        # editing its report does not edit the penalty
+        if held[0] is not None:
+            obs.check(list(held[0]) == held[1], 'state:a report handed out by stored() is not altered by later operations', layers=layers, ops=ops[-6:],
+                      report_now=list(held[0]), report_when_taken=held[1])
+            held[0] = None
+        if isinstance(got_s, list) and rng.random() < 0.25:
+            if rng.random() < 0.5:
+                held[0], held[1] = got_s, list(got_s)
+            else:
+                got_s.append(123.0)
+                if len(got_s) > 1: got_s[0] = -7.0
+                again = real.stored()
+                obs.check(len(again) == len(want_s) and all(close(float(a), float(b)) for a, b in zip(again, want_s)),
+                          'state:stored() holds the stored condition values', layers=layers, ops=ops[-6:], observed=again, expected=want_s, after='the caller edited the list stored() had returned')
+            obs.event('stored_report_aliasing_probes')
         # nested layers are reachable through the closure chain only via behaviour: probe with a fixed point
     obs.desc = {'layers': layers, 'base_k': basek, 'ops': ops}
     obs.nontrivial = saw_violated and saw_satisfied and advanced_before_call
